@@ -76,7 +76,8 @@ def gen_scenario(rng, focus=None, big=False) -> Scenario:
         else:
             d = rng.choice([0, 1, 1, 2, 3])
         sched.append(tuple(rng.randrange(4) for _ in range(d)))
-    return Scenario(nj=nj, bs_auto=bs_auto, bs=bs, pd_mode=pd_mode, pd=pd, pd_expr=pd_expr, ra=ra, timeout=timeout,
+    verbose = 0 if rng.random() < 0.6 else rng.choice([1, 5, 11, 60])
+    return Scenario(verbose=verbose, nj=nj, bs_auto=bs_auto, bs=bs, pd_mode=pd_mode, pd=pd, pd_expr=pd_expr, ra=ra, timeout=timeout,
                     managed=managed, abort_drops=abort_drops, calls=tuple(calls), sched=tuple(sched))
 
 
